@@ -167,6 +167,16 @@ class Repo:
     def _index(self, mod):
         for node in mod.tree.body:
             self._index_stmt(mod, node)
+        # imports written inside functions (to avoid import cycles) bind names the function bodies use: resolved like
+        # module-level ones unless the module binds the name itself
+        top = set(map(id, mod.tree.body))
+        for node in ast.walk(mod.tree):
+            if isinstance(node, (ast.Import, ast.ImportFrom)) and id(node) not in top:
+                for a in node.names:
+                    name = (a.asname or a.name.split(".")[0]) if isinstance(node, ast.Import) else (a.asname or a.name)
+                    if name in mod.imports or name in mod.classes or name in mod.funcs or name in mod.consts:
+                        continue
+                    mod.imports[name] = ("mod", a.name) if isinstance(node, ast.Import) else ("sym", self._abs_from(mod, node), a.name)
 
     def _index_stmt(self, mod, node):
         if isinstance(node, ast.Import):
